@@ -24,8 +24,12 @@ def split_interp(m, rng):
 
 def oracle_case(res, ast, d1, d2, rng):
     res.evaluations += 1
-    lhs = build(ast).assume(forms(d1, rng)).evaluate(forms(d2, rng)).as_tuple()
-    rhs = build(ast).evaluate({**forms(d2, rng), **forms(d1, rng)}).as_tuple()
+    try:
+        lhs = build(ast).assume(forms(d1, rng)).evaluate(forms(d2, rng)).as_tuple()
+        rhs = build(ast).evaluate({**forms(d2, rng), **forms(d1, rng)}).as_tuple()
+    except Exception as e:
+        return {"op": "assume-evaluate", "model": ast_json(ast), "d1": {k: list(v) for k, v in d1.items()}, "d2": {k: list(v) for k, v in d2.items()},
+                "problem": f"assume(d1).evaluate(d2) / evaluate(d1 ∪ d2) raised {type(e).__name__}: {str(e)[:160]}"}
     if lhs != rhs:
         return {"op": "assume-evaluate", "model": ast_json(ast), "d1": {k: list(v) for k, v in d1.items()}, "d2": {k: list(v) for k, v in d2.items()},
                 "problem": f"assume(d1).evaluate(d2) = {lhs} but evaluate(d1 ∪ d2) = {rhs}"}
@@ -60,7 +64,13 @@ def run(res, tier, seed):
         for _ in range(per):
             d1, d2 = split_interp(m, rng)
             fresh = build(ast)
-            assumed = build(ast).assume(forms(d1, rng))
+            try:
+                assumed = build(ast).assume(forms(d1, rng))
+            except Exception as e:
+                res.violation("oracle", f"assume(d1) raised {type(e).__name__}: {str(e)[:160]} on {m!r} d1={d1}",
+                              {"op": "assume-evaluate", "model": ast_json(ast), "d1": {k: list(v) for k, v in d1.items()}, "d2": {k: list(v) for k, v in d2.items()},
+                               "problem": f"assume(d1) raised {type(e).__name__}"})
+                continue
             names_comp = any(k in compound_ids(m) for k in d1)
             derived = (not is_var(assumed)) and any((not is_var(x) or x.id in compound_ids(m)) and x.bounds.lower == x.bounds.upper and x.id not in d1 for x in all_nodes(assumed)[1:])
             if names_comp: res.count("d1_names_compound")
